@@ -154,6 +154,30 @@ def parent_main(args: argparse.Namespace) -> int:
     if os.environ.get("VERIF_DEBUG"):
         with open(os.environ["VERIF_DEBUG"], "w") as fh:
             json.dump(violations, fh, default=str)
+    # supplementary workload: the repository's own test-suite with this property's runtime contracts switched on
+    groups = getattr(mod, "CONTRACT_GROUPS", None)
+    if groups and not os.environ.get("VERIF_NO_REPO_TESTS"):
+        out = os.path.join(tempfile.gettempdir() if not os.path.isdir("/dev/shm") else "/dev/shm", f"verif_contr_{pid}_{os.getpid()}.json")
+        e = env.child_env()
+        e["VERIF_CONTRACTS"], e["VERIF_CONTRACT_OUT"] = ",".join(groups), out
+        try:
+            p = subprocess.run(["/venv/bin/python", "-B", "-m", "pytest", "-q", "-x", "-p", "vlib.contracts_plugin", "-p", "no:cacheprovider", "--timeout=900", "tests"],
+                               cwd=env.REPO, env=e, capture_output=True, text=True, timeout=1200, check=False)
+            if os.path.exists(out):
+                with open(out) as fh:
+                    rep = json.load(fh)
+                os.remove(out)
+                for name, n in rep["counts"].items():
+                    counters["repo_tests.contract_evaluations." + name] += n
+                counters["repo_tests.collected"] += rep.get("collected", 0)
+                if rep["broken"]:
+                    violations.append({"kind": "contract_broken_in_repository_tests", "detail": {"messages": rep["broken"][:3]}, "index": -1, "case": {"workload": "repository tests"}})
+                elif rep["failed"]:
+                    problems.append(f"repository tests failed with contracts on ({rep['failed']} failures) without a contract firing")
+            else:
+                problems.append("repository tests with contracts on did not produce a report: " + (p.stdout + p.stderr)[-300:])
+        except subprocess.TimeoutExpired:
+            problems.append("repository tests with contracts on hit the watchdog")
     findings = Findings(os.path.join(VERIF, "known_findings.json"))
     classify = getattr(mod, "classify", None)
     known: dict[str, list] = {}
